@@ -43,8 +43,15 @@ func drawC20(t *rapid.T) Case {
 		for k := rapid.IntRange(1, 3).Draw(t, "nruns"); k > 0; k-- {
 			b.WriteString(strings.Repeat("plain ", rapid.IntRange(0, 3).Draw(t, "plain")))
 			unit := []string{"<", ">", "&", "\u2028", "\u2029", "<&>", "\"", "\\", "\x00", "\x1f", "\n", "\xff", "\xe2\x80", "é<"}[rapid.IntRange(0, 13).Draw(t, "unit")]
-			n := []int{1, 7, 15, 16, 17, 31, 32, 33, 63, 64, 65, 100, 200, 500, 1000, 2500}[rapid.IntRange(0, 15).Draw(t, "runlen")]
+			// (4096 is the capacity of the position stack utf8.CorrectWith works with)
+			n := []int{1, 7, 15, 16, 17, 31, 32, 33, 63, 64, 65, 100, 200, 500, 1000, 2500, 4095, 4096, 4097, 5000, 8192, 8193, 9000}[rapid.IntRange(0, 22).Draw(t, "runlen")]
+			if n > 2500 && len(unit) > 2 {
+				n /= 2
+			}
 			b.WriteString(strings.Repeat(unit, n))
+			if rapid.Bool().Draw(t, "tail") {
+				b.WriteString("tail")
+			}
 		}
 		c.Data = b.Bytes()
 	case 1:
